@@ -284,7 +284,7 @@ theorem HostOp.apply_hinv2 {s : State} (h : HInv2 s) (op : HostOp) (hok : op.ok)
     rw [hostExecute_eq]
     have hs : HInv ({ s with clock := s.clock + k } : State) :=
       ⟨hi.congr rfl rfl rfl rfl rfl rfl rfl rfl rfl, h.h.cur, h.h.depth, h.h.td,
-        Nat.le_trans h.h.ck1 (Nat.le_add_right _ _), h.h.ck2, h.h.ck3⟩
+        Nat.le_trans h.h.ck1 (Nat.le_add_right _ _), h.h.ck2⟩
     have h0 := frameSetTime_hinv hs
     have j0 : J [] (frameSetTime { s with clock := s.clock + k }) := h.j.congr rfl rfl rfl
     have r1 := processEvents_hr defaultFuel (frameSetTime { s with clock := s.clock + k })
